@@ -1,8 +1,440 @@
-//! C04 – not implemented yet.
-use mvlib::Ctx;
-use serde_json::Value;
+//! C04 – invalid programs are rejected at the offending location and produce no binary.
+//!
+//! Fault enumeration: exactly one fault of each class is injected at every statement slot of every
+//! base program (also inside scopes, macro bodies, loop bodies, conditional branches, segment
+//! blocks and the imported file). In-process oracle: at least one diagnostic, and one of them
+//! lies inside the source extent of the injected construct. Real-binary oracle: exit status != 0,
+//! stdout names that location, nothing is written to (or changed in) the target directory.
 
-pub fn run(_ctx: &Ctx, _replay: Option<&Value>) -> i32 {
-    eprintln!("C04: engine not implemented yet");
-    2
+use crate::probe::{self, Opts};
+use mvlib::grammar::*;
+use mvlib::progs::{base_programs, OTHER_ASM};
+use mvlib::{fnv_str, Ctx, Finding};
+use rayon::prelude::*;
+use serde_json::{json, Value};
+use std::path::Path;
+use std::process::Command;
+
+#[derive(Clone, Debug)]
+struct Fault {
+    class: &'static str,
+    text: &'static str,
+    /// a parse-level fault is detected wherever it stands; a semantic one only where code is assembled
+    semantic: bool,
+    /// the construct extends to the end of the file (unclosed block)
+    to_eof: bool,
+    /// the offending construct inside the injected text: (first, last) line, relative
+    lines: Option<(usize, usize)>,
+}
+
+fn faults() -> Vec<Fault> {
+    let f = |class, text, semantic| Fault {
+        class,
+        text,
+        semantic,
+        to_eof: false,
+        lines: None,
+    };
+    let g = |class, text, lines| Fault {
+        class,
+        text,
+        semantic: true,
+        to_eof: false,
+        lines: Some(lines),
+    };
+    vec![
+        f("undefined-symbol", "lda nope_q", true),
+        f("undefined-symbol-data", ".word nope_q + 1", true),
+        f("undefined-macro", "nomacro_q(1)", true),
+        f("undefined-segment", ".segment \"noseg_q\" { nop }", true),
+        // the offending construct of a redefinition is the second definition
+        g("label-redefinition", "dupl_q: nop\nnop\ninx\ndupl_q: nop", (3, 3)),
+        g("constant-redefinition", ".const dupc_q = 1\nnop\n.const dupc_q = 2", (2, 2)),
+        f("illegal-addressing-mode", "lda ($10)", true),
+        f("illegal-addressing-mode-2", "stx $10,x", true),
+        f("immediate-out-of-range", "lda #256", true),
+        g("branch-out-of-range", "{\nbne far_q\n.loop 130 { nop }\nfar_q:\n}", (1, 1)),
+        g("branch-out-of-range-backward", "{\nbck_q:\n.loop 130 { nop }\nbeq bck_q\n}", (3, 3)),
+        g("macro-arity", ".macro arq_q(p) { nop }\nnop\narq_q()", (2, 2)),
+        g("macro-arity-too-many", ".macro arr_q() { nop }\nnop\narr_q(1, 2)", (2, 2)),
+        f("malformed-immediate", "lda #", false),
+        f("malformed-data", ".byte", false),
+        f("malformed-garbage", "%%", false),
+        f("malformed-operand", "lda #1 2", false),
+        Fault {
+            class: "unclosed-block",
+            text: "{ nop",
+            semantic: false,
+            to_eof: true,
+            lines: None,
+        },
+    ]
+}
+
+/// A list of statements in the AST where something can be inserted.
+#[derive(Clone, Debug)]
+struct Site {
+    /// path of child indices leading to the list, then the position in it
+    path: Vec<(usize, u8)>,
+    pos: usize,
+    context: &'static str,
+    /// is the code at this place assembled by `mos build`?
+    assembled: bool,
+}
+
+fn collect_sites(stmts: &[Stmt], path: &mut Vec<(usize, u8)>, context: &'static str, assembled: bool, out: &mut Vec<Site>) {
+    for pos in 0..=stmts.len() {
+        out.push(Site {
+            path: path.clone(),
+            pos,
+            context,
+            assembled,
+        });
+    }
+    for (i, s) in stmts.iter().enumerate() {
+        match s {
+            Stmt::Braces(b) => {
+                path.push((i, 0));
+                collect_sites(b, path, "braces", assembled, out);
+                path.pop();
+            }
+            Stmt::Label { block: Some(b), .. } => {
+                path.push((i, 0));
+                collect_sites(b, path, "label-block", assembled, out);
+                path.pop();
+            }
+            Stmt::Loop { count, body } => {
+                let runs = !matches!(count, Expr::Num(n) if n == "0");
+                path.push((i, 0));
+                collect_sites(body, path, "loop-body", assembled && runs, out);
+                path.pop();
+            }
+            Stmt::If { cond, then, els } => {
+                // only literal conditions decide statically; others: treat as not assembled for semantic faults
+                let (t, e) = match cond {
+                    Expr::Num(n) if n == "0" => (false, true),
+                    Expr::Num(_) => (true, false),
+                    Expr::Ident { path: p, .. } if p == "c" => (true, false),
+                    _ => (false, false),
+                };
+                path.push((i, 0));
+                collect_sites(then, path, "if-then", assembled && t, out);
+                path.pop();
+                if let Some(eb) = els {
+                    path.push((i, 1));
+                    collect_sites(eb, path, "if-else", assembled && e, out);
+                    path.pop();
+                }
+            }
+            Stmt::MacroDef { body, name, .. } => {
+                // assembled when the macro is invoked somewhere at top level of the same list
+                let invoked = stmts.iter().any(|x| matches!(x, Stmt::MacroCall { name: n, .. } if n == name));
+                path.push((i, 0));
+                collect_sites(body, path, "macro-body", assembled && invoked, out);
+                path.pop();
+            }
+            Stmt::Segment { block: Some(b), .. } => {
+                path.push((i, 0));
+                collect_sites(b, path, "segment-block", assembled, out);
+                path.pop();
+            }
+            Stmt::Import { block: Some(b), .. } => {
+                path.push((i, 0));
+                collect_sites(b, path, "import-block", assembled, out);
+                path.pop();
+            }
+            _ => {}
+        }
+    }
+}
+
+fn insert(stmts: &[Stmt], path: &[(usize, u8)], pos: usize, new: &Stmt) -> Vec<Stmt> {
+    let mut out = stmts.to_vec();
+    if path.is_empty() {
+        out.insert(pos, new.clone());
+        return out;
+    }
+    let (i, which) = path[0];
+    let rest = &path[1..];
+    out[i] = match &stmts[i] {
+        Stmt::Braces(b) => Stmt::Braces(insert(b, rest, pos, new)),
+        Stmt::Label { name, block: Some(b) } => Stmt::Label {
+            name: name.clone(),
+            block: Some(insert(b, rest, pos, new)),
+        },
+        Stmt::Loop { count, body } => Stmt::Loop {
+            count: count.clone(),
+            body: insert(body, rest, pos, new),
+        },
+        Stmt::If { cond, then, els } => {
+            if which == 0 {
+                Stmt::If {
+                    cond: cond.clone(),
+                    then: insert(then, rest, pos, new),
+                    els: els.clone(),
+                }
+            } else {
+                Stmt::If {
+                    cond: cond.clone(),
+                    then: then.clone(),
+                    els: Some(insert(els.as_ref().unwrap(), rest, pos, new)),
+                }
+            }
+        }
+        Stmt::MacroDef { name, params, body } => Stmt::MacroDef {
+            name: name.clone(),
+            params: params.clone(),
+            body: insert(body, rest, pos, new),
+        },
+        Stmt::Segment { name, block: Some(b) } => Stmt::Segment {
+            name: name.clone(),
+            block: Some(insert(b, rest, pos, new)),
+        },
+        Stmt::Import { args, file, block: Some(b) } => Stmt::Import {
+            args: args.clone(),
+            file: file.clone(),
+            block: Some(insert(b, rest, pos, new)),
+        },
+        other => other.clone(),
+    };
+    out
+}
+
+#[derive(Clone, Debug)]
+struct Case {
+    prog: String,
+    class: &'static str,
+    context: &'static str,
+    semantic: bool,
+    files: Vec<(String, String)>,
+    /// file and 0-based line range of the injected construct
+    file: String,
+    l0: usize,
+    l1: usize,
+}
+
+fn cases() -> Vec<Case> {
+    let mut out = vec![];
+    let fs = faults();
+    for p in base_programs().into_iter().filter(|p| p.valid) {
+        let mut sites = vec![];
+        collect_sites(&p.stmts, &mut vec![], "top", true, &mut sites);
+        for site in &sites {
+            for f in &fs {
+                if f.semantic && !site.assembled {
+                    continue;
+                }
+                if p.name == "tests" && f.semantic && site.context != "top" {
+                    continue;
+                }
+                let raw = Stmt::Raw(f.text.to_string());
+                let prog = insert(&p.stmts, &site.path, site.pos, &raw);
+                let r = render(&prog);
+                let lay = r.layout(&[]);
+                // find the raw terminal
+                let ti = match r.terms.iter().position(|t| t.kind == Kind::Raw) {
+                    Some(t) => t,
+                    None => continue,
+                };
+                let (s, e) = lay.ranges[ti];
+                let mut l0 = lay.line_col(s).0;
+                let mut l1 = if f.to_eof {
+                    lay.text.split('\n').count().saturating_sub(1)
+                } else {
+                    lay.line_col(e).0
+                };
+                if let Some((a, b)) = f.lines {
+                    l1 = l0 + b;
+                    l0 += a;
+                }
+                out.push(Case {
+                    prog: p.name.clone(),
+                    class: f.class,
+                    context: site.context,
+                    semantic: f.semantic,
+                    files: vec![("main.asm".into(), lay.text.clone()), ("other.asm".into(), OTHER_ASM.to_string())],
+                    file: "main.asm".into(),
+                    l0,
+                    l1,
+                });
+            }
+        }
+        // the imported file: inject at every line boundary of other.asm
+        if p.name.starts_with("imports") {
+            let main = render(&p.stmts).text();
+            let lines: Vec<&str> = OTHER_ASM.split('\n').collect();
+            for pos in 0..=lines.len() {
+                for f in &fs {
+                    let mut new_lines: Vec<String> = lines.iter().map(|l| l.to_string()).collect();
+                    new_lines.insert(pos, f.text.to_string());
+                    let n_inj = f.text.split('\n').count();
+                    let text = new_lines.join("\n");
+                    let total = text.split('\n').count();
+                    out.push(Case {
+                        prog: p.name.clone(),
+                        class: f.class,
+                        context: "imported-file",
+                        semantic: f.semantic,
+                        files: vec![("main.asm".into(), main.clone()), ("other.asm".into(), text)],
+                        file: "other.asm".into(),
+                        l0: pos + f.lines.map_or(0, |l| l.0),
+                        l1: if f.to_eof { total - 1 } else { f.lines.map_or(pos + n_inj - 1, |l| pos + l.1) },
+                    });
+                }
+            }
+        }
+    }
+    out
+}
+
+fn case_json(c: &Case) -> Value {
+    let fm: serde_json::Map<String, Value> = c.files.iter().map(|(n, t)| (n.clone(), json!(t))).collect();
+    json!({"kind": "fault", "program": c.prog, "class": c.class, "context": c.context, "files": fm, "fault_file": c.file, "fault_lines": [c.l0 + 1, c.l1 + 1]})
+}
+
+fn check_inproc(ctx: &Ctx, c: &Case) -> Option<(String, usize, usize)> {
+    let files: Vec<(&str, &str)> = c.files.iter().map(|(n, t)| (n.as_str(), t.as_str())).collect();
+    ctx.eval(|| json!({"class": c.class, "context": c.context, "program": c.prog, "main.asm": c.files[0].1}));
+    ctx.nontrivial(fnv_str(&format!("{}{}{}{}", c.files[0].1, c.files[1].1, c.class, c.context)));
+    let built = match probe::assemble(&files, &Opts::default()) {
+        Ok(b) => b,
+        Err(p) => {
+            ctx.finding(Finding::new(format!("{}@{}:panic:{}", c.class, c.context, p.site), format!("panic {} at {}", p.message, p.site), case_json(c)));
+            return None;
+        }
+    };
+    let diags = built.all_diags();
+    if diags.is_empty() && built.stop == probe::Stop::None {
+        ctx.finding(Finding::new(
+            format!("{}@{}:no-diag", c.class, c.context),
+            format!("the injected {} at {}:{}-{} is not reported: the build succeeds", c.class, c.file, c.l0 + 1, c.l1 + 1),
+            case_json(c),
+        ));
+        return None;
+    }
+    let located = diags.iter().find(|d| match &d.loc {
+        Some((f, l, _c, _, _)) => Path::new(f).file_name().map(|n| n.to_string_lossy() == c.file).unwrap_or(false) && *l >= c.l0 && *l <= c.l1,
+        None => false,
+    });
+    match located {
+        Some(d) => {
+            let (f, l, col, _, _) = d.loc.clone().unwrap();
+            let _ = f;
+            Some((c.file.clone(), l, col))
+        }
+        None => {
+            let any_loc = diags.iter().any(|d| d.loc.is_some());
+            ctx.finding(Finding::new(
+                format!("{}@{}:{}", c.class, c.context, if any_loc { "wrong-line" } else { "no-location" }),
+                format!(
+                    "the injected {} occupies {}:{}-{} but the diagnostics are {:?}",
+                    c.class, c.file, c.l0 + 1, c.l1 + 1, diags.iter().map(|d| d.short()).collect::<Vec<_>>()
+                ),
+                case_json(c),
+            ));
+            None
+        }
+    }
+}
+
+fn check_binary(ctx: &Ctx, c: &Case, expect: &(String, usize, usize), dir: &Path) {
+    let bin = std::env::var("MOS_BIN").unwrap_or_else(|_| "/verif/.build/bin/release/mos".into());
+    let _ = std::fs::remove_dir_all(dir);
+    std::fs::create_dir_all(dir.join("target")).unwrap();
+    for (n, t) in &c.files {
+        std::fs::write(dir.join(n), t).unwrap();
+    }
+    std::fs::write(dir.join("mos.toml"), "[build]\nentry = \"main.asm\"\nlisting = true\nsymbols = [\"vice\"]\n").unwrap();
+    // pre-existing output must stay untouched
+    std::fs::write(dir.join("target/main.prg"), b"OLD-PRG").unwrap();
+    std::fs::write(dir.join("target/main.vs"), b"OLD-VS").unwrap();
+    let before: Vec<_> = ["main.prg", "main.vs"]
+        .iter()
+        .map(|f| std::fs::metadata(dir.join("target").join(f)).and_then(|m| m.modified()).ok())
+        .collect();
+    ctx.eval(|| json!({"real_binary": c.class, "context": c.context}));
+    let o = Command::new(&bin).args(["-e", "Short", "--no-color", "build"]).current_dir(dir).output();
+    let sig = |what: &str| format!("{}@{}:{}", c.class, c.context, what);
+    match o {
+        Err(e) => ctx.cap(format!("cannot run mos: {}", e)),
+        Ok(o) => {
+            let text = format!("{}{}", String::from_utf8_lossy(&o.stdout), String::from_utf8_lossy(&o.stderr));
+            if o.status.code() == Some(0) {
+                ctx.finding(Finding::new(sig("exit0"), format!("`mos build` exits 0 for a program with an injected {}", c.class), case_json(c)));
+            } else if o.status.code() != Some(1) {
+                ctx.finding(Finding::new(sig("abnormal-exit"), format!("`mos build` ends with {:?}: {}", o.status, text.lines().find(|l| l.contains("panicked")).unwrap_or("")), case_json(c)));
+            }
+            let needle = format!("{}:{}:{}", expect.0, expect.1 + 1, expect.2 + 1);
+            if !String::from_utf8_lossy(&o.stdout).contains(&needle) {
+                ctx.finding(Finding::new(sig("location-not-on-stdout"), format!("stdout does not name {}: {:?}", needle, text.chars().take(300).collect::<String>()), case_json(c)));
+            }
+            let mut listing: Vec<String> = std::fs::read_dir(dir.join("target"))
+                .map(|rd| rd.flatten().map(|e| e.file_name().to_string_lossy().to_string()).collect())
+                .unwrap_or_default();
+            listing.sort();
+            if listing != vec!["main.prg".to_string(), "main.vs".to_string()] {
+                ctx.finding(Finding::new(sig("file-written"), format!("target directory contains {:?} after a failed build", listing), case_json(c)));
+            } else {
+                let same = std::fs::read(dir.join("target/main.prg")).ok() == Some(b"OLD-PRG".to_vec())
+                    && std::fs::read(dir.join("target/main.vs")).ok() == Some(b"OLD-VS".to_vec());
+                let after: Vec<_> = ["main.prg", "main.vs"]
+                    .iter()
+                    .map(|f| std::fs::metadata(dir.join("target").join(f)).and_then(|m| m.modified()).ok())
+                    .collect();
+                if !same || before != after {
+                    ctx.finding(Finding::new(sig("file-modified"), "an existing output file was modified by a failed build".to_string(), case_json(c)));
+                }
+            }
+        }
+    }
+    let _ = std::fs::remove_dir_all(dir);
+}
+
+pub fn run(ctx: &Ctx, replay: Option<&Value>) -> i32 {
+    if let Some(case) = replay {
+        let files: Vec<(String, String)> = case["files"].as_object().map(|m| m.iter().map(|(k, v)| (k.clone(), v.as_str().unwrap_or("").to_string())).collect()).unwrap_or_default();
+        let mut refs: Vec<(&str, &str)> = files.iter().map(|(n, t)| (n.as_str(), t.as_str())).collect();
+        refs.sort_by_key(|(n, _)| if *n == "main.asm" { 0 } else { 1 });
+        println!("fault {} in {} lines {}", case["class"], case["fault_file"], case["fault_lines"]);
+        match probe::assemble(&refs, &Opts::default()) {
+            Ok(b) => println!("diagnostics: {:#?}", b.all_diags().iter().map(|d| d.short()).collect::<Vec<_>>()),
+            Err(p) => println!("PANIC {} at {}", p.message, p.site),
+        }
+        return 0;
+    }
+    let thorough = ctx.tier.is_thorough();
+    let all = cases();
+    ctx.set("cases", json!(all.len()));
+    let classes: std::collections::BTreeSet<_> = all.iter().map(|c| c.class).collect();
+    let contexts: std::collections::BTreeSet<_> = all.iter().map(|c| c.context).collect();
+    ctx.set("fault_classes", json!(classes));
+    ctx.set("contexts", json!(contexts));
+    let located: Vec<(usize, (String, usize, usize))> = all
+        .par_iter()
+        .enumerate()
+        .filter_map(|(i, c)| check_inproc(ctx, c).map(|l| (i, l)))
+        .collect();
+    ctx.set("in_process_located", json!(located.len()));
+    // real binary: one per (class x context) in quick, all in thorough
+    let scratch = ctx.verif_root.join(".build/scratch/c04").join(std::process::id().to_string());
+    let mut seen = std::collections::HashSet::new();
+    let picked: Vec<&(usize, (String, usize, usize))> = located
+        .iter()
+        .filter(|(i, _)| thorough || seen.insert((all[*i].class, all[*i].context)))
+        .collect();
+    ctx.set("real_binary_cases", json!(picked.len()));
+    picked.par_iter().for_each(|(i, loc)| {
+        check_binary(ctx, &all[*i], loc, &scratch.join(format!("c{}", i)));
+    });
+    let _ = std::fs::remove_dir_all(&scratch);
+    ctx.finish(
+        "fault_enumeration",
+        "16 fault texts of the 11 error classes (undefined symbol/macro/segment, label and constant redefinition, illegal addressing mode, immediate and branch out of range, macro arity, malformed statements, unclosed block) x every statement slot of every valid base program (top level, braces, label blocks, loop bodies, taken if/else branches, invoked macro bodies, segment blocks, import parameter blocks) and every line boundary of the imported file; parse-level faults also in code that is not assembled. In-process: >= 1 diagnostic and one inside the injected construct's lines; real binary (one per class x context in quick, all in thorough): exit status 1, stdout names file:line:col, target directory holds only the two pre-existing files, unmodified. non-trivial = distinct (project text, class, context)",
+        true,
+        &[
+            "exactly one fault per program (deviation bound 1)",
+            "the weakest reading of 'names the location': some diagnostic's line lies within the injected construct's lines (for an unclosed block: up to the end of the file)",
+            "semantic faults are only injected where `mos build` assembles the code",
+        ],
+    )
 }
